@@ -10,6 +10,8 @@ Lipschitz statement about one segment:
       `|S(x) − S(x')| ≤ |x − x'| / (x_r − x_l) · (|y_r − y_l| + |a| + |b|)`,
   `S = splEvalExact` the segment expression of `CubicSplineStrategy::interp_into` (`C02_eval_exact_is_model`).
 
+* `C07_wrapped_rounding` : the two together — rounded evaluation at the rounded wrapped argument against the exact value at the exact one.
+
 Together with `C02_eval_rounding` (rounding of the evaluation itself) this bounds the float result against the exact periodic
 extension whenever the rounded and the exact wrapped argument fall into the same interval; across a knot the spline is C² (C02), across
 the period boundary it is C² by the periodic end conditions (C03_periodic), so the same estimate holds piecewise.
@@ -68,6 +70,23 @@ theorem C07_segment_lipschitz (xl xr yl yr a b x x' : F) (hx : xl < xr)
         rw [abs_mul, abs_mul]
     _ ≤ |yr - yl| + |a| * 1 + |b| * 1 := by gcongr
     _ = |yr - yl| + |a| + |b| := by ring
+
+/-- **C07_wrapped_rounding**: the rounded evaluation at a (rounded) wrapped argument `x'` against the exact value at the exact wrapped
+    argument `x`, both in the same interval: the evaluation's own rounding (`C02_eval_rounding`) plus the effect of the argument error -/
+theorem C07_wrapped_rounding (xl xr yl yr a b x x' u M d1 d2 d3 d4 d5 d6 d7 d8 d9 d10 d11 d12 d13 : F)
+    (hx : xl < xr) (h1 : xl ≤ x) (h2 : x ≤ xr) (h1' : xl ≤ x') (h2' : x' ≤ xr) (hu0 : 0 ≤ u) (hu : u ≤ 1/16)
+    (e1 : |d1| ≤ u) (e2 : |d2| ≤ u) (e3 : |d3| ≤ u) (e4 : |d4| ≤ u) (e5 : |d5| ≤ u) (e6 : |d6| ≤ u) (e7 : |d7| ≤ u)
+    (e8 : |d8| ≤ u) (e9 : |d9| ≤ u) (e10 : |d10| ≤ u) (e11 : |d11| ≤ u) (e12 : |d12| ≤ u) (e13 : |d13| ≤ u)
+    (hyl : |yl| ≤ M) (hyr : |yr| ≤ M) (ha : |a| ≤ M) (hb : |b| ≤ M) :
+    |splEvalFl xl xr yl yr a b x' d1 d2 d3 d4 d5 d6 d7 d8 d9 d10 d11 d12 d13 - splEvalExact xl xr yl yr a b x| ≤
+      102 * u * M + |x' - x| / (xr - xl) * (|yr - yl| + |a| + |b|) := by
+  have r := C02_eval_rounding xl xr yl yr a b x' u M d1 d2 d3 d4 d5 d6 d7 d8 d9 d10 d11 d12 d13 hx h1' h2' hu0 hu
+    e1 e2 e3 e4 e5 e6 e7 e8 e9 e10 e11 e12 e13 hyl hyr ha hb
+  have l := C07_segment_lipschitz xl xr yl yr a b x' x hx h1' h2' h1 h2
+  calc |splEvalFl xl xr yl yr a b x' d1 d2 d3 d4 d5 d6 d7 d8 d9 d10 d11 d12 d13 - splEvalExact xl xr yl yr a b x|
+      = |(splEvalFl xl xr yl yr a b x' d1 d2 d3 d4 d5 d6 d7 d8 d9 d10 d11 d12 d13 - splEvalExact xl xr yl yr a b x')
+          + (splEvalExact xl xr yl yr a b x' - splEvalExact xl xr yl yr a b x)| := by ring_nf
+    _ ≤ _ := le_trans (abs_add_le _ _) (add_le_add r l)
 
 /-- non-vacuity, and the bound is attained up to its constant: the segment with `y = (0, 1)`, `a = b = 0` is the line of slope `1/h` -/
 example : |splEvalExact (0 : ℚ) 2 0 1 0 0 (3/2) - splEvalExact 0 2 0 1 0 0 (1/2)| = |(3/2 : ℚ) - 1/2| / (2 - 0) * (|(1 : ℚ) - 0| + |0| + |0|) := by
